@@ -33,9 +33,11 @@ const (
 	oDiscover         // Discover Versions answered by the executor itself (no user handler): success
 	oCriticalDiscover // the same with a critical message extension: must fail like any other item
 	nOutcomes
+	// not part of the exhaustive enumeration:
+	oCancel outcome = nOutcomes // a handler that succeeds after the request's context has been cancelled (by itself)
 )
 
-var outcomeNames = []string{"success", "typed-error", "plain-error", "panic", "unrouted", "critical-extension", "builtin-discover", "critical-extension-on-builtin-discover"}
+var outcomeNames = []string{"success", "typed-error", "plain-error", "panic", "unrouted", "critical-extension", "builtin-discover", "critical-extension-on-builtin-discover", "success-after-context-cancelled"}
 
 type stringer struct{}
 
@@ -47,6 +49,7 @@ type script struct {
 	outcomes []outcome
 	calls    []int
 	panicIdx int
+	cancel   func() // cancels the context the request is handled under
 }
 
 var routedOps = []kmip.Operation{kmip.OperationActivate, kmip.OperationDestroy, kmip.OperationArchive}
@@ -83,6 +86,12 @@ func newExecutor(lookup func(reqID string) *script) *kmipserver.BatchExecutor {
 		o := s.outcomes[idx]
 		pk := s.panicIdx + idx
 		s.mu.Unlock()
+		if o == oCancel {
+			if s.cancel != nil {
+				s.cancel()
+			}
+			o = oSuccess
+		}
 		switch o {
 		case oSuccess:
 			switch req.(type) {
@@ -157,7 +166,13 @@ func buildRequest(b batchCase, reqID string, r *core.Rand) *kmip.RequestMessage 
 		var bi kmip.RequestBatchItem
 		switch {
 		case o == oDiscover || o == oCriticalDiscover:
-			bi = kmip.RequestBatchItem{Operation: kmip.OperationDiscoverVersions, RequestPayload: &payloads.DiscoverVersionsRequestPayload{}}
+			dv := &payloads.DiscoverVersionsRequestPayload{}
+			for _, v := range []kmip.ProtocolVersion{kmip.V1_4, kmip.V1_3, kmip.V1_2, kmip.V1_1, kmip.V1_0} {
+				if r.P(1, 3) {
+					dv.ProtocolVersion = append(dv.ProtocolVersion, v) // the client's own list: the answer is the intersection
+				}
+			}
+			bi = kmip.RequestBatchItem{Operation: kmip.OperationDiscoverVersions, RequestPayload: dv}
 		case o == oUnrouted:
 			if i%2 == 0 {
 				bi = kmip.RequestBatchItem{Operation: kmip.OperationRecover, RequestPayload: &payloads.RecoverRequestPayload{UniqueIdentifier: id}}
@@ -207,10 +222,10 @@ func model(b batchCase) expectation {
 		if stopped {
 			continue // not executed, not successful
 		}
-		if o == oSuccess || o == oTyped || o == oPlain || o == oPanic {
+		if o == oSuccess || o == oTyped || o == oPlain || o == oPanic || o == oCancel {
 			e.calls = append(e.calls, i)
 		}
-		e.success[i] = o == oSuccess || o == oDiscover
+		e.success[i] = o == oSuccess || o == oDiscover || o == oCancel
 		if !e.success[i] && stop {
 			stopped = true
 		}
@@ -341,6 +356,48 @@ func direct(c *core.Ctx, b batchCase, r *core.Rand, panicIdx int) {
 	check(c, b, req, resp, s, "direct")
 }
 
+// sequence: ONE executor handles a sequence of requests (different versions, built-in Discover Versions with the
+// client's own sub-lists, handlers that cancel the request's context); each request is judged on its own.
+func sequence(c *core.Ctx, r *core.Rand, i int) {
+	var cur *script
+	ex := newExecutor(func(string) *script { return cur })
+	K := 3 + r.Intn(6)
+	for k := 0; k < K; k++ {
+		v := requestVersions[1+r.Intn(5)] // 1.0 .. 1.4: all supported by default
+		b := batchCase{option: options[r.Intn(3)], withIDs: r.Bool(), version: &v}
+		for j, n := 0, 1+r.Intn(5); j < n; j++ {
+			switch r.Intn(6) {
+			case 0:
+				b.outcomes = append(b.outcomes, oDiscover)
+			case 1:
+				b.outcomes = append(b.outcomes, oCancel)
+			case 2:
+				b.outcomes = append(b.outcomes, outcome(r.Intn(int(nOutcomes))))
+			default:
+				b.outcomes = append(b.outcomes, oSuccess)
+			}
+		}
+		ctx, cancel := context.WithCancel(context.Background())
+		cur = &script{outcomes: b.outcomes, panicIdx: k, cancel: cancel}
+		req := buildRequest(b, fmt.Sprintf("seq%d-%d", i, k), r)
+		var resp *kmip.ResponseMessage
+		if p, pv, st := core.Guard(func() { resp = ex.HandleRequest(ctx, req) }); p {
+			cancel()
+			c.Violation(core.PanicSig(pv, st), fmt.Sprintf("HandleRequest panicked: %v (%s)", pv, b), map[string]any{"stack": st})
+			return
+		}
+		cancel()
+		c.Count("sequence_requests", 1)
+		for _, o := range b.outcomes {
+			if o == oCancel {
+				c.Count("sequence_requests.context-cancelled-mid-batch", 1)
+				break
+			}
+		}
+		check(c, b, req, resp, cur, "sequence")
+	}
+}
+
 func Spec() *core.Spec {
 	slog.SetDefault(slog.New(slog.NewTextHandler(io.Discard, nil)))
 	return &core.Spec{
@@ -349,8 +406,8 @@ func Spec() *core.Spec {
 		Rule: "exhaustive: every batch of length 0..3 (quick) / 0..4 (thorough) over per-item outcomes {success, typed error, plain error, panic (6 value kinds), unrouted operation, critical extension, built-in Discover Versions, critical extension on the built-in Discover Versions} " +
 			"x continuation option {unset, Continue, Stop, Undo} x {supported, unsupported} version x {matching, mismatching} batch count x with/without item ids, through BatchExecutor.HandleRequest with instrumented handlers; " +
 			"seeded random batches of up to 40 items; a sample sent through a real server connection so ids and counts cross the wire. Compared with a 30-line reference model (item count/order/echo, counts, version, success/failure, handler trace). " +
-			"all 31 supported-version sets x 11 request versions (inside, in gaps, outside); distinct = distinct (batch description, path) combinations",
-		Required: []string{"versions.supported", "versions.unsupported.in-a-gap", "batches.direct", "batches.wire", "rejected_requests"},
+			"all 31 supported-version sets x 11 request versions (inside, in gaps, outside); sequences of 3-8 requests on ONE executor (versions 1.0-1.4, built-in Discover Versions with client sub-lists, handlers cancelling the request context mid-batch); distinct = distinct (batch description, path) combinations",
+		Required: []string{"sequence_requests", "sequence_requests.context-cancelled-mid-batch", "versions.supported", "versions.unsupported.in-a-gap", "batches.direct", "batches.wire", "rejected_requests"},
 		Families: []core.Family{
 			{Name: "exhaustive", Exhaustive: true, N: func(tier string) int {
 				if tier == core.Thorough {
@@ -414,6 +471,12 @@ func Spec() *core.Spec {
 				}
 				direct(c, b, r, i)
 			}},
+			{Name: "sequence", N: func(tier string) int {
+				if tier == core.Thorough {
+					return 100000
+				}
+				return 1500
+			}, Run: sequence},
 			{Name: "random", N: func(tier string) int {
 				if tier == core.Thorough {
 					return 1000000
